@@ -206,7 +206,7 @@ func checkC02(c *Ctx) {
 var c04BadNames = []string{"", "nodev", "vendor.com/gpu", "vendor.com/gpu=", "=x", "vendor.com/gpu=dev0 ", " vendor.com/gpu=dev0", "vendor.com/gpu=dev9", "nope.io/net=dev0", "a/b=c", "vendor.com/gpu=dev0,vendor.com/gpu=dev1", "VENDOR.COM/gpu=dev0", "vendor.com/gpu=dev0\x00", "vendor.com//gpu=dev0", "é/ü=ö"}
 
 func checkC04(c *Ctx) {
-	c.Rule = "seeded caches (as C02) x initial OCI specs (nil sections and populated ones) x request lists mixing resolvable names with unknown, syntactically invalid, conflict-removed and repeated names; oracle: misses = requested names M-RESOLVE does not resolve, in request order with repetitions; OCI spec DeepEqual and byte-identical JSON to a copy taken before; nil spec => error and the whole request returned; distinct_nontrivial = distinct (resolvable/unresolvable pattern of the request, which OCI sections are non-nil) with both kinds present"
+	c.Rule = "seeded caches (as C02) x initial OCI specs (nil sections and populated ones) x request lists mixing resolvable names with unknown, syntactically invalid, conflict-removed and repeated names; oracle: misses = requested names M-RESOLVE does not resolve, in request order with repetitions; OCI spec DeepEqual and byte-identical JSON to a copy taken before; nil spec => error and the whole request returned; plus requests for two devices that are never defined at the same time while the Spec file flips between them under concurrent refreshes (must always fail, spec untouched); distinct_nontrivial = distinct (resolvable/unresolvable pattern of the request, which OCI sections are non-nil) with both kinds present"
 	c.Assume("M-RESOLVE decides resolvability")
 	hosts, err := makeHostNodes(filepath.Join(c.Scratch, "hostdev"))
 	if err != nil {
@@ -312,8 +312,55 @@ func checkC04(c *Ctx) {
 			cs.Violation("nil-spec", nil, fmt.Sprintf("InjectDevices(nil, %q) = %q, %v; expected an error and the whole request", req, unres, ierr), nil)
 		}
 	})
+	// the same contract while the cache content flips underneath the request: a
+	// Spec file alternates between "a only" and "b only"; a request for both is
+	// unresolvable in every content the cache ever has
+	c.RunCases("flip", c.pick(6, 40), 0, func(cs *Case) {
+		root := filepath.Join(c.Scratch, sanitize(cs.Name))
+		must(os.MkdirAll(root, 0o755))
+		defer os.RemoveAll(root)
+		mk := func(dev string) []byte {
+			return []byte(fmt.Sprintf(`{"cdiVersion":"0.6.0","kind":"flip.org/dev","devices":[{"name":"%s","containerEdits":{"env":["FLIP_%s=1"]}}]}`, dev, dev))
+		}
+		target := filepath.Join(root, "flip.json")
+		must(os.WriteFile(target, mk("a"), 0o644))
+		auto := cs.R.Intn(2) == 0
+		cache, _ := cdi.NewCache(cdi.WithSpecDirs(root), cdi.WithAutoRefresh(auto))
+		defer releaseCache(cache)
+		stop := make(chan struct{})
+		done := make(chan struct{})
+		go func() {
+			defer close(done)
+			for i := 0; ; i++ {
+				select {
+				case <-stop:
+					return
+				default:
+				}
+				tmp := filepath.Join(root, "stage.tmp")
+				os.WriteFile(tmp, mk([]string{"a", "b"}[i%2]), 0o644)
+				os.Rename(tmp, target)
+				if !auto {
+					cache.Refresh()
+				}
+			}
+		}()
+		req := []string{"flip.org/dev=a", "flip.org/dev=b"}
+		for i := 0; i < c.pick(3000, 20000); i++ {
+			spec := &oci.Spec{Process: &oci.Process{Env: []string{"KEEP=1"}}}
+			unres, err := cache.InjectDevices(spec, req...)
+			c.Count("flip_requests", 1)
+			if err == nil || len(unres) == 0 || len(spec.Process.Env) != 1 {
+				cs.Violation("flip-accepted", map[string]string{"auto": fmt.Sprint(auto)}, fmt.Sprintf("InjectDevices(%v) = %v, %v with env %v although no content of the cache ever defines both devices (a refresh landed between the lookups of one request)", req, unres, err, spec.Process.Env), nil)
+				break
+			}
+		}
+		close(stop)
+		<-done
+	})
 	c.Floor("mixed_requests_on_populated_oci", 100)
 	c.Floor("nil_spec_requests", 100)
+	c.Floor("flip_requests", 1000)
 }
 
 var _ = rand.Int
